@@ -420,6 +420,8 @@ class Profile:
                                 s_start += size
                             elif op == 4:
                                 s_start += size
+                            elif op == 3:  # reference skip
+                                start += size
                             elif op in [0, 7, 8]:
                                 for i in range(size):
                                     cov[c][start + i] += 1
